@@ -30,18 +30,26 @@ DP = "DiffractionPatterns"
 
 
 # ------------------------------------------------------------------------------------------------ shared R-SHIFT setup
-def make_interp(repo) -> Interp:
-    """Interpreter with the contracts of the functions that are verified on their own."""
+def make_interp(repo, coordinate_contracts: tuple = ("angular_coordinates",)) -> Interp:
+    """Interpreter with the contracts of the functions that are verified on their own (modular reasoning: a
+    function with a contract is verified once against it, its callers rely on the contract).
+    `coordinate_contracts` names the coordinate properties whose contract (CENTERED iff self.fftshift) callers may
+    rely on; properties not named are evaluated through."""
     flag = lambda name: (lambda fl: flag_layout(fl[name]))
     q = lambda m, *path: ".".join((m,) + path)
     contracts = {
         q(MEAS, "_annular_detector_mask"): Contract(["fftshift"], flag("fftshift")),
         q(MEAS, "_polar_detector_bins"): Contract(["fftshift"], flag("fftshift")),
         q(WAVES, "Waves", "_diffraction_pattern"): Contract(["fftshift"], flag("fftshift")),
-        q(MEAS, DP, "angular_coordinates"): Contract([], flag("self.fftshift"), ["self.fftshift"]),
-        q(MEAS, DP, "coordinates"): Contract([], flag("self.fftshift"), ["self.fftshift"]),
-        q(MEAS, DP, "_crop"): Contract([], lambda fl: C, requires={"array": lambda fl: C}),
     }
+    for name in coordinate_contracts:
+        contracts[q(MEAS, DP, name)] = Contract([], flag("self.fftshift"), ["self.fftshift"])
+    crop = repo.method(MEAS, DP, "_crop")
+    if "fftshift" in crop.params:
+        # the blockwise crop is told the layout: flag-parametric contract
+        contracts[crop.qualname] = Contract(["fftshift"], flag("fftshift"), requires={"array": flag("fftshift")})
+    else:
+        contracts[crop.qualname] = Contract([], lambda fl: C, requires={"array": lambda fl: C})
     it = Interp(repo, contracts, method_hints={"coordinates": ("abtem.core.axes", "LinearAxis")})
     it.track(repo.cls(MEAS, DP))
     return it
@@ -52,15 +60,25 @@ def dp_inputs(val: dict) -> dict:
     return {"self.array": flag_layout(val["self.fftshift"]), "self._array": flag_layout(val["self.fftshift"])}
 
 
-def coordinate_specs(repo) -> list[Spec]:
-    """The coordinate properties shared by C14 and C40."""
-    fl = lambda v: flag_layout(v["self.fftshift"])
-    return [
-        Spec(repo.method(MEAS, DP, "angular_coordinates"), ["self.fftshift"], dp_inputs, expect=fl, batched=False,
-             label="angular_coordinates must be ordered like the array (CENTERED iff self.fftshift)"),
-        Spec(repo.method(MEAS, DP, "coordinates"), ["self.fftshift"], dp_inputs, expect=fl, batched=False,
-             label="coordinates must be ordered like the array (CENTERED iff self.fftshift)"),
-    ]
+def angular_coordinates_spec(repo) -> Spec:
+    return Spec(repo.method(MEAS, DP, "angular_coordinates"), ["self.fftshift"], dp_inputs,
+                expect=lambda v: flag_layout(v["self.fftshift"]), batched=False,
+                label="angular_coordinates must be ordered like the array (CENTERED iff self.fftshift)")
+
+
+def center_of_mass_spec(repo) -> Spec:
+    """center_of_mass under every (fftshift flag, units): the coordinates handed to _com must be in the layout of
+    self.array.  Which property or caller performs the shift is left open."""
+    cm = repo.method(MEAS, DP, "center_of_mass")
+    units = []
+    for n in ast.walk(cm.node):
+        if isinstance(n, ast.Compare) and len(n.ops) == 1 and isinstance(n.ops[0], ast.Eq) and dotted(n.left) == "units" \
+                and isinstance(n.comparators[0], ast.Constant) and isinstance(n.comparators[0].value, str):
+            units.append(n.comparators[0].value)
+    if len(units) < 2 or "units" not in cm.params:
+        raise AnalysisError(f"{cm.qualname}: the units dispatch was not found")
+    return Spec(cm, ["self.fftshift"], dp_inputs, expect=None, strings={"units": sorted(set(units))},
+                label="center_of_mass multiplies self.array with coordinates in the array's own layout")
 
 
 def _shift_rule_text(ctx) -> None:
@@ -85,12 +103,16 @@ def _r_shift(ctx, repo) -> None:
              label="mask layout follows the fftshift argument"),
         Spec(repo.function(MEAS, "_polar_detector_bins"), ["fftshift"], lambda v: {}, expect=flagp, batched=False,
              label="bin-label layout follows the fftshift argument"),
-        Spec(repo.method(MEAS, DP, "_crop"), [], lambda v: {"array": C}, expect=lambda v: C, batched=True,
-             label="_crop maps a CENTERED array to a CENTERED array"),
+        (Spec(repo.method(MEAS, DP, "_crop"), ["fftshift"], lambda v: {"array": flag_layout(v["fftshift"])},
+              expect=flagp, batched=True, label="_crop keeps the layout named by its fftshift argument")
+         if "fftshift" in repo.method(MEAS, DP, "_crop").params else
+         Spec(repo.method(MEAS, DP, "_crop"), [], lambda v: {"array": C}, expect=lambda v: C, batched=True,
+              label="_crop maps a CENTERED array to a CENTERED array")),
         Spec(repo.method(MEAS, DP, "crop"), ["self.fftshift"], dp_inputs,
              expect_store=("array", lambda v: flag_layout(v["self.fftshift"])),
              label="crop keeps the receiver's flag, so the cropped array must keep the receiver's layout"),
-        *coordinate_specs(repo),
+        angular_coordinates_spec(repo),
+        center_of_mass_spec(repo),
         Spec(repo.method(MEAS, DP, "_bandlimit"), ["centered"],
              lambda v: {"array": flag_layout(v["centered"]), "angular_coordinates": flag_layout(v["centered"])},
              expect=lambda v: flag_layout(v["centered"]), label="array * mask(alpha) with alpha ordered like the array"),
